@@ -6803,10 +6803,19 @@ impl Machine {
         let mut parser = Parser::new(chars, &mut self.machine_st);
         let op_dir = CompositeOpDir::new(&self.indices.op_dir, None);
 
-        let term_write_result = parser
-            .read_term(&op_dir, Tokens::Default)
-            .map_err(|err| error_after_read_term(err, 0, &parser))
-            .and_then(|term| write_term_to_heap(&term, &mut self.machine_st.heap));
+        // a text of layout and comments only holds no clause: like a stream at its end it
+        // yields end_of_file, not a syntax error.
+        let only_layout = matches!(devour_whitespace(&mut parser.lexer), Ok(_))
+            && parser.lexer.reader.peek_char().is_none();
+
+        let term_write_result = if only_layout {
+            Err(CompilationError::from(ParserError::unexpected_eof()))
+        } else {
+            parser
+                .read_term(&op_dir, Tokens::Default)
+                .map_err(|err| error_after_read_term(err, 0, &parser))
+                .and_then(|term| write_term_to_heap(&term, &mut self.machine_st.heap))
+        };
 
         match term_write_result {
             Ok(term_write_result) => Ok(Some(term_write_result)),
